@@ -158,6 +158,8 @@ class Gen(object):
             for state in (3, 4, 5, 1, 2):
                 val = rng.choice(P.VALUE_IDX)
                 op = self.one_op(opname, val, state)
+                if op is None:
+                    continue
                 cases.append({"kind": 1, "state": state, "tmo": rng.choice([None, 200]), "D": 300, "val": val,
                               "exc": rng.choice(sorted(P.EXCS)),
                               "callers": [{"name": self.tname("op"), "S": rng.choice([0, 50, 299]), "ops": [op]}]})
@@ -251,7 +253,11 @@ def run(ck):
     ops = sorted(P.FORWARDED)
     for i in range(len(ops) * (8 if quick else 150)):
         tasks.append(g.sweep_task(ops[i % len(ops)], 24))
-    ck.run_and_validate(tasks, TRACE, nontrivial=nontrivial)
+    pairs = ck.run_and_validate(tasks, TRACE, nontrivial=nontrivial)
+    # a crash of a harness thread (caller / owner / canceller) is a defect of this check, never a verdict
+    crashed = [(t["facts"], r["thread_excs"]) for (t, r), _v in pairs if r.get("thread_excs")]
+    if crashed:
+        ck.machinery_errors.append("harness threads crashed in %d executions, e.g. %s" % (len(crashed), crashed[:2]))
     ck.notes["rule"] = ("one evaluation = one execution of the real library under the controlled scheduler holding "
                         "1-24 independent cases (input future + f_proxy / f_nocancel wrapper + operations), validated "
                         "by TLC against ProxyObs; distinct = distinct (scenario, projected trace) pairs; non-trivial = "
